@@ -1,9 +1,17 @@
 (* C05 — Commit only on a majority of voters, current-term rule, monotone.
-   Statements only; proofs in Proofs/CommitmentProofs.v. *)
+   Statements only; proofs in Proofs/CommitmentProofs.v (the commitment tracker) and
+   Proofs/ClusterQuorum*.v (ALL RUNS of the cluster with commitment, Model/ClusterCommit.v; end of file):
+   whatever a running server reports inside its commit index is held identically in the durable log
+   store of a strict majority of the voters (or covered by that voter's snapshot), a leader's commit
+   index enters the range of its own leadership only when its own-term no-op is on such a majority,
+   the commit index never exceeds the last index (C02) and no step lowers it except a step that
+   restarts that very server.
+   PARTIAL: one configuration (membership changes are outside the composed system: F8 lives there);
+   snapshot TRANSFER is outside (F3-ii, F12). *)
 From Coq Require Import List NArith.
 From stdpp Require Import gmap.
-From RaftModel Require Import Base Config Commitment.
-From RaftProofs Require Import CommitmentProofs.
+From RaftModel Require Import Base Config Commitment Node NodeCodec Cluster ClusterLog ClusterCommit.
+From RaftProofs Require Import CommitmentProofs ClusterCommitSpec ClusterCommitSnapSpec ClusterQuorumSpec ClusterQuorumMonoSpec ClusterQuorumMain.
 Open Scope N_scope.
 
 (* The index picked from the sorted match indexes (position (n-1)/2) is exactly the largest
@@ -70,3 +78,49 @@ Example C05_nontrivial :
        cm_run (cm_new cfg 5) [CMatch 1 5; CMatch 4 9; CMatch 5 9];
        cm_run (cm_new cfg 5) [CMatch 1 5; CMatch 4 9; CMatch 2 6]] = [0; 0; 5].
 Proof. vm_compute. reflexivity. Qed.
+
+
+(* ================= ALL RUNS of the cluster with commitment (Model/ClusterCommit.v) =================
+   Statements: Proofs/ClusterQuorumSpec.v (mine); proofs by a prover sub-agent on top of the invariant of
+   State Machine Safety (acceptance records of a majority + Leader Completeness: an acceptor still holds
+   what it accepted unless a later leader lacked it, which Leader Completeness excludes). *)
+
+(* every entry inside the commit index of a running server is in the durable log store (running or crashed
+   server: image) of each member of a strict majority of the voters, each counted once, nobody else *)
+Theorem C05_commit_backed_by_voter_majority_all_runs : forall cfg g0 ls g,
+  cinit_ok cfg g0 -> Forall label_ok ls -> crun false [cfg] g0 ls = Some g -> commit_backed cfg g.
+Proof. exact commit_backed_all_runs. Qed.
+Print Assumptions C05_commit_backed_by_voter_majority_all_runs.
+
+(* with takeSnapshot/compaction anywhere, any time: ... or at or below a snapshot that voter stores *)
+Theorem C05_commit_backed_by_voter_majority_all_runs_with_snapshots : forall cfg g0 ls g,
+  cinit_snap_ok cfg g0 -> Forall label_ok ls -> crun true [cfg] g0 ls = Some g -> commit_backed_snap cfg g.
+Proof. exact commit_backed_all_runs_snapshots. Qed.
+Print Assumptions C05_commit_backed_by_voter_majority_all_runs_with_snapshots.
+
+(* current-term rule: a Leader's commit index is below the index of its own no-op (what it had learned as a
+   follower), or an entry of ITS term at that index is durably stored by a strict majority of the voters *)
+Theorem C05_own_term_rule_all_runs : forall cfg g0 ls g,
+  cinit_ok cfg g0 -> Forall label_ok ls -> crun false [cfg] g0 ls = Some g -> own_term_rule cfg g.
+Proof. exact own_term_rule_all_runs. Qed.
+Print Assumptions C05_own_term_rule_all_runs.
+Theorem C05_own_term_rule_all_runs_with_snapshots : forall cfg g0 ls g,
+  cinit_snap_ok cfg g0 -> Forall label_ok ls -> crun true [cfg] g0 ls = Some g -> own_term_rule_snap cfg g.
+Proof. exact own_term_rule_all_runs_snapshots. Qed.
+Print Assumptions C05_own_term_rule_all_runs_with_snapshots.
+
+(* monotone: no step of any run lowers the commit index of a server that runs before and after it, except the
+   step that restarts that very server - by the restart label or because the process dies inside the handler
+   the step runs there (crash cut reached / panic) and boots again from its durable image within the step
+   (NodeCodec.finish).  My first statement forgot the second way of restarting and is REFUTED by the prover
+   with a compiled run (C05_commit_monotone_first_statement_is_false). *)
+Theorem C05_commit_index_never_decreases_all_runs : forall sn cfg g0 ls g l g',
+  cinit_snap_ok cfg g0 -> Forall label_ok ls -> crun sn [cfg] g0 ls = Some g ->
+  label_ok l -> cstep sn [cfg] g l = Some g' -> commit_monotone_step_crash g l g'.
+Proof. exact commit_monotone_crash_all_runs. Qed.
+Print Assumptions C05_commit_index_never_decreases_all_runs.
+Theorem C05_commit_monotone_first_statement_is_false :
+  ~ (forall sn cfg g0 ls g l g',
+       cinit_snap_ok cfg g0 -> Forall label_ok ls -> crun sn [cfg] g0 ls = Some g ->
+       label_ok l -> cstep sn [cfg] g l = Some g' -> commit_monotone_step g l g').
+Proof. exact commit_monotone_all_runs_is_false. Qed.
